@@ -6,6 +6,7 @@ import re
 from .lib import hir as H
 from .lib import mir as M
 from .lib import emit as E
+from .lib import e5run
 
 EXPL = ("Shape rules (E3/E2) on main::run_buf / run_filters: the main program runs once before and outside the packet "
         "loop and filters are compiled into Bytecode.filters, never into the main stream; per packet the typestate "
@@ -101,7 +102,7 @@ def run(F, R, tier):
             rule, key, detail, line, facts = v
             if "statement[Filter]" not in key or (rule, key) in seen:
                 continue
-            if rule == "filter-result" and facts.get("v:f.pattern") in ("None", "End") and facts.get("some:f.action") is False:
+            if rule == "filter-result" and facts.get("v:$:Filter.pattern") in ("None", "End") and facts.get("some:$:Filter.action") is False:
                 continue   # excluded by the parser: a filter statement has a pattern or an action (C07 parser-contract rule)
             seen.add((rule, key))
             R.ob(rule, key, False, detail, "src/compiler/mod.rs:%s" % line if line else "")
@@ -111,7 +112,7 @@ def run(F, R, tier):
             for t, st in r["ends"]:
                 if t != "ok":
                     continue
-                pat, act = st.facts.get("v:f.pattern"), st.facts.get("some:f.action")
+                pat, act = e5run.cfact(st, r["pname"], "v", "$:Filter.pattern"), e5run.cfact(st, r["pname"], "some", "$:Filter.action")
                 if pat in ("None", "End") and act is False:
                     continue
                 got.setdefault((pat, act), set()).add((tuple(o[1] for o in st.order), tuple(e[0] for e in st.emits)))
